@@ -234,6 +234,9 @@ func (tp *TableParser) parseRow(row tableRowXML) ParsedTableRow {
 	return parsed
 }
 
+// maxGridSpan bounds w:gridSpan (the grid is allocated from it).
+const maxGridSpan = 1024
+
 // parseCell parses a table cell.
 func (tp *TableParser) parseCell(cell tableCellXML) ParsedTableCell {
 	parsed := ParsedTableCell{
@@ -246,6 +249,11 @@ func (tp *TableParser) parseCell(cell tableCellXML) ParsedTableCell {
 	// Parse column span (gridSpan)
 	if props.GridSpan.Val != "" {
 		if span, err := strconv.Atoi(props.GridSpan.Val); err == nil && span > 0 {
+			// the span sizes the table grid: a count from the file must not
+			// grow it beyond any table a document holds (Word stops at 63 columns)
+			if span > maxGridSpan {
+				span = maxGridSpan
+			}
 			parsed.ColSpan = span
 		}
 	}
